@@ -644,6 +644,11 @@ where
                 }
 
                 self.cluster_index = 0;
+            } else {
+                // Endpoint skipped (path mismatch or not reachable for this accessor): the
+                // cluster / leaf cursors belong to it, the next endpoint starts from scratch.
+                self.cluster_index = 0;
+                self.leaf_index = 0;
             }
 
             endpoint_index += 1;
